@@ -1,5 +1,6 @@
 import DateutilVerif.Properties.C08
 import DateutilVerif.Properties.TzGen   -- translator tie (wt-iso): obligations about the re-translated lookup functions
+import DateutilVerif.Properties.TzObjGen   -- translator tie (wt-iso): tzrange/tzstr construction
 #print axioms C08.rule_instant
 #print axioms C08.transitions_eq_posix_partial
 #print axioms C08.no_dst_part_is_fixed
@@ -27,3 +28,8 @@ import DateutilVerif.Properties.TzGen   -- translator tie (wt-iso): obligations 
 #print axioms C08.gen_eq_model_dst_base_offset
 #print axioms C08.tzstr_render
 #print axioms C08.tzstr_string_posix
+#print axioms C08.gen_eq_model_tzrange_init
+#print axioms C08.gen_eq_model_tzstr_delta
+#print axioms C08.gen_eq_model_transitions
+#print axioms C08.gen_eq_model_zone_eq
+#print axioms C08.gen_eq_model_tzstr_init
